@@ -21,7 +21,7 @@ RULE = (
     "== projection of the tree; New().parse(bytes(old)) == tree; the reference decoder of the newer schema reads "
     "bytes(old) as the tree; the records of deleted top-level fields appear in bytes(old) byte-for-byte in arrival "
     "order; the decoding entry point is drawn from {parse, load, load(size), load(SIZE_DELIMITED) followed by "
-    "further stream content}. (b) (message, tree, generated unknown records - numbers absent from the schema incl. >=2**28, "
+    "further stream content}; with nested deletions the writer may emit every singular sub-message twice (an empty occurrence first). (b) (message, tree, generated unknown records - numbers absent from the schema incl. >=2**28, "
     "varint/fixed32/fixed64/LEN wire types, nested payloads - each with an insertion position): known-field snapshot "
     "unchanged, every inserted record re-emitted byte-for-byte in order, re-decoding stable. Non-trivial = >=1 "
     "deleted/unknown field actually present on the wire."
@@ -159,7 +159,7 @@ def targets(ctx):
 
     # ------------------------------------------------------------------ (a) schema evolution
     @collecting
-    def evo_clauses(out, name, tree, drop_top, nested_drops, src, info, entry="parse"):
+    def evo_clauses(out, name, tree, drop_top, nested_drops, src, info, entry="parse", dup=False):
         cls = c.bp(name)
         mi = schema.msg(f"ks.{name}")
         want = norm(schema, mi, tree)
@@ -170,6 +170,20 @@ def targets(ctx):
             from ..values import BPAdapter
 
             b = guard("bytes_new", bytes, BPAdapter(schema).build(cls, mi, tree))
+        if dup:
+            # the writer emitted every singular sub-message twice: an empty occurrence first, then the real one (legal:
+            # occurrences of a message field are merged / the last one wins - the same value either way); whatever the
+            # later occurrence carries that the older reader does not know must survive
+            recs2 = []
+            for r_ in wire.parse_records(b):
+                f_ = mi.by_number(r_.number)
+                if f_ is not None and f_.card in ("single", "optional") and f_.type == "message" and f_.wkt is None and r_.wt == 2:
+                    recs2.append(wire.make_record(r_.number, 2, b""))
+                    info["dup_done"] = info.get("dup_done", 0) + 1
+                recs2.append(r_)
+            b = b"".join(x.raw for x in recs2)
+            if norm(schema, mi, snap_ref(schema, mi, c.ref.cls(mi.full_name).FromString(b))) != want:
+                raise RuntimeError("reference disagrees on a duplicated sub-message occurrence (harness)")
         Old = make_older(cls, drop_top, nested_drops)
         old = guard("parse_old", decode_via, Old(), b, entry)
         # known fields of the older reader = projection (snapshot by field number through the older class)
@@ -246,20 +260,24 @@ def targets(ctx):
         mi = schema.msg(f"ks.{name}")
         info = {}
         entry = case.get("entry", "parse")
-        found = evo_clauses(name, tree, drop_top, nested, case.get("src", "ref"), info, entry)
+        found = evo_clauses(name, tree, drop_top, nested, case.get("src", "ref"), info, entry, case.get("dup", False))
         kinds = sorted({mi.by_number(n).kind for n in drop_top if mi.by_number(n) and mi.by_number(n).name in tree})
         fails = []
         for cl, d in found:
             # which single dropped field is enough?
             culprit = []
             for n in sorted(drop_top):
-                if any(c2 == cl for c2, _ in evo_clauses(name, tree, {n}, None, case.get("src", "ref"), {}, entry)):
+                if any(c2 == cl for c2, _ in evo_clauses(name, tree, {n}, None, case.get("src", "ref"), {}, entry, case.get("dup", False))):
                     fi = mi.by_number(n)
                     culprit.append(fi.kind if fi else str(n))
+            if case.get("dup") and not culprit and not any(c2 == cl for c2, _ in evo_clauses(name, tree, drop_top, nested, case.get("src", "ref"), {}, entry, False)):
+                culprit = ["submessage_sent_twice"]
             where = "&".join(sorted(set(culprit))) or ("nested:" + "+".join(sorted(nested)) if nested else "interaction:" + "&".join(kinds))
             fails.append(Failure(cl, f"evo|{cl}|{where}|{entry}"[:240], f"case={case!r} :: {d}"))
         dropped_present = [n for n in drop_top if mi.by_number(n) and mi.by_number(n).name in tree]
         labs = [f"msg:{name}", f"dropped_present:{min(len(dropped_present), 4)}", f"nested:{bool(nested)}"] + [f"dropkind:{k}" for k in kinds]
+        if info.get("dup_done"):
+            labs.append("submessage_sent_twice" + ("_with_nested_drops" if nested else ""))
         return Eval(fails, nontrivial=bool(dropped_present) or bool(nested and info.get("present")), labels=labs)
 
     ts = cm.tree_strats(c, max_fields=7)
@@ -293,6 +311,7 @@ def targets(ctx):
                     snums = [f.number for f in schema.msg(f"ks.{s}").fields]
                     nested[s] = sorted(draw(st.one_of(st.just(snums), st.lists(st.sampled_from(snums), unique=True, min_size=1))))
                 case["nested"] = nested
+                case["dup"] = draw(st.sampled_from([False, True]))
         return case
 
     # ------------------------------------------------------------------ (b) unknown records
